@@ -63,8 +63,14 @@ def build_graph(names, edges, rng=None, keys=None, attrs=None):
     from polyply import MetaMolecule
     g = nx.Graph()
     keys = keys or list(range(len(names)))
+    # a residue graph without residue numbers (a .json file with ids and names only): the constructor numbers the residues
+    # itself, key + 1 -- the same numbers
+    no_resid = rng is not None and keys == list(range(len(names))) and rng.random() < 0.35
     for k, (key, nm) in enumerate(zip(keys, names)):
-        g.add_node(key, resname=nm, resid=k + 1)
+        if no_resid:
+            g.add_node(key, resname=nm)
+        else:
+            g.add_node(key, resname=nm, resid=k + 1)
     edges = list(edges)
     if rng:
         rng.shuffle(edges)
